@@ -80,11 +80,32 @@ def huge_suffixes(ctx, L):
                 return
 
 
+def huge_cuts(ctx, L):
+    """Long encodings (buffers / lists of 2046..16382 elements, a response with 4096 random bytes and a session) cut inside
+    the long part, at its first and last element and right behind it: every complete element is emitted before the error."""
+    cases = [c for c in gen.huge_cases(L) if len(c.data) <= 17000] + gen.huge_messages(L)[:1]
+    for k, case in enumerate(cases):
+        if k % ctx.nshards != ctx.shard:
+            continue
+        n = len(case.data)
+        head = next((off for i, (off, w) in sorted(case.spans.items()) if case.tokens[i][0].endswith("[0]")), 6)
+        for cut in sorted({head, head + 1, head + 2, 1025, 1026 + head, 2049, 4097, n // 2, n - 2, n - 1}):
+            if not 0 < cut < n:
+                continue
+            data = case.data[:cut]
+            ref, obs = strict_pair(L, case.type, data, case.cc, case.enc)
+            ctx.case((case.type, case.cc, case.enc, cut, n), True, sample={"type": case.type, "cut": cut, "of": n, "model": ref.kinds} if cut == n // 2 else None)
+            ctx.count("huge-cuts")
+            if not report(ctx, ID, L, case.type, data[:64], case.cc, case.enc, ref, obs, extra=f"a {n}-byte encoding cut at {cut} (replay shows its first 64 bytes only)"):
+                return
+
+
 def run_shard(ctx):
     L = layout()
     body = lambda ex: check_case(ctx, L, ex)  # noqa: E731
     q = ctx.quick()
     ctx.run_plain(lambda: empty_inputs(ctx, L), "empty")
+    ctx.run_plain(lambda: huge_cuts(ctx, L), "huge-cuts")
     ctx.run_plain(lambda: huge_suffixes(ctx, L), "huge-suffix")
     suffix = st.binary(min_size=1, max_size=8)
     for name, strat, n in (
